@@ -49,7 +49,8 @@ RULE = ("requests over two fixed schemas (objects, lists, non-null, enum, input 
         "empty message, a module-level instance raised by several fields, subclasses with one-argument, multi-positional "
         "and keyword-only constructors computing message/extensions, a subclass exposing extensions as a property; at root "
         "fields, nested fields and below list items; null in "
-        "non-null positions, null list items, non-finite floats as numbers and as text); non-finite numbers spelled as "
+        "non-null positions, null list items, custom scalars whose serializer returns None for non-null values at "
+        "T!, [T!], [T!]! and nested positions or raises, non-finite floats as numbers and as text); non-finite numbers spelled as "
         "text in literals (arguments, input-object fields, list items, variable defaults), in variable payloads and in "
         "resolver outputs, with the stage at which each must be contained: generated valid operations (aliases, inline and "
         "named fragments, @skip/@include, mutations), every prefix of 7 seed documents, character and "
@@ -434,9 +435,11 @@ def run_impl(case):
         obs.update(kind="raised", cls=type(e).__name__, msg=str(e)[:300])
         obs["floats"] = encode_floats(ctx["floats"])
         obs["nonfinite_args"] = ctx.get("nonfinite_args", [])
+        obs["unserialisable"] = ctx.get("unserialisable", [])
         return obs
     obs["floats"] = encode_floats(ctx["floats"])
     obs["nonfinite_args"] = ctx.get("nonfinite_args", [])
+    obs["unserialisable"] = ctx.get("unserialisable", [])
     obs["raised_paths"] = ctx["raised"]
     obs["raised_ext"] = encode_floats(ctx["raised_ext"])
     try:
@@ -494,7 +497,11 @@ def _stages_term(case, obs):
         "None" if st["opselect"] is None else "(Some %s)" % ser.cstr(st["opselect"]),
         ser.clist(st["varcoercion"], cerr),
         ser.clist(st.get("rootcoercion", []), cerr),
-        ser.clist(decode_floats(obs.get("floats", [])), lambda f: cjnum(_as_float(f))),
+        # values a resolver returned for a Float field; a value returned for the custom scalar Strict that
+        # its serializer rejects is logged as one more unserialisable (NaN) entry: the stage machine's
+        # crash criterion is "some returned value is rejected by its serializer"
+        ser.clist(decode_floats(obs.get("floats", [])) + [float("nan")] * len(obs.get("unserialisable", [])),
+                  lambda f: cjnum(_as_float(f))),
         ex)
 
 
@@ -595,6 +602,23 @@ def direct_checks(case, obs):
         return out
     if _has_columne(obs):
         out.append(("syntax-error location spells the column key 'columne'", "columne-key"))
+    # model-free twin of the Coq null_error_match: every obligated position that is null in "data"
+    # has exactly one error with that path
+    if obs.get("kind") == "response" and isinstance(obs["resp"].get("data"), dict):
+        errs = [e for e in (obs["resp"].get("errors") or []) if isinstance(e, dict)]
+        for pth in obs.get("obligated", []):
+            cur, present = obs["resp"]["data"], True
+            for seg in pth:
+                try:
+                    cur = cur[seg]
+                except (KeyError, IndexError, TypeError):
+                    present = False
+                    break
+            if present and cur is None:
+                n = sum(1 for e in errs if e.get("path") == pth)
+                if n != 1:
+                    out.append(("null at %s (non-nullable position or failed field) has %d errors with that path"
+                                % (pth, n), None))
     for where, val in obs.get("nonfinite_args", []):
         out.append(("Float input coercion handed the non-finite number %s to the resolver at %s" % (val, where), None))
     if case.get("expect") and _stage_name(obs) not in case["expect"]:
